@@ -290,3 +290,82 @@ func resolveCacheFields(P *Prog) (size, limit, count, sizeOf, onEvict *types.Var
 	}
 	return
 }
+
+// fieldByType: the field of pkg.typ named `name`, or — when private fields were renamed — its only field whose
+// type is a pointer to the named type tpkg.tname.
+func (P *Prog) fieldByType(pkg, typ, name, tpkg, tname string) *types.Var {
+	if f := P.Field(pkg, typ, name); f != nil {
+		return f
+	}
+	n := P.Named(pkg, typ)
+	if n == nil {
+		return nil
+	}
+	var found *types.Var
+	cnt := 0
+	for _, f := range structFields(n) {
+		p, ok := f.Type().Underlying().(*types.Pointer)
+		if !ok {
+			continue
+		}
+		nn := namedOf(p.Elem())
+		if nn != nil && nn.Obj().Name() == tname && nn.Obj().Pkg() != nil && nn.Obj().Pkg().Name() == tpkg {
+			found = f
+			cnt++
+		}
+	}
+	if cnt == 1 {
+		return found
+	}
+	return nil
+}
+
+// streeRebuild: the in-place rebuild of a subtree ("rewrite"), by name or by role: the package-level function from
+// *node to *node that methods of Tree call directly both on the insertion side and on the removal side.
+func streeRebuild(P *Prog) *ssa.Function {
+	if fn := P.Func("stree", "", "rewrite"); fn != nil {
+		return fn
+	}
+	ins, rem := P.Func("stree", "Tree", "insert"), P.Func("stree", "Tree", "Remove")
+	nodeT, treeT := P.Named("stree", "node"), P.Named("stree", "Tree")
+	if ins == nil || rem == nil || nodeT == nil || treeT == nil {
+		return nil
+	}
+	direct := func(root *ssa.Function) map[*ssa.Function]bool {
+		out := map[*ssa.Function]bool{}
+		for _, f := range buildCallScope(root).fns {
+			if f.Signature.Recv() == nil || !isNamedOrigin(f.Signature.Recv().Type(), treeT) {
+				if f.Parent() == nil {
+					continue
+				}
+			}
+			allInstrs(f, func(in ssa.Instruction) {
+				call, ok := in.(*ssa.Call)
+				if !ok {
+					return
+				}
+				cal := origin(staticCallee(&call.Call))
+				if cal == nil || cal.Blocks == nil || cal.Pkg != root.Pkg || cal.Signature.Recv() != nil || cal.Signature.Results().Len() != 1 || cal.Signature.Params().Len() < 1 {
+					return
+				}
+				if isNamedOrigin(cal.Signature.Results().At(0).Type(), nodeT) && isNamedOrigin(cal.Signature.Params().At(0).Type(), nodeT) {
+					out[cal] = true
+				}
+			})
+		}
+		return out
+	}
+	a, b := direct(ins), direct(rem)
+	var found *ssa.Function
+	n := 0
+	for f := range a {
+		if b[f] {
+			found = f
+			n++
+		}
+	}
+	if n == 1 {
+		return found
+	}
+	return nil
+}
